@@ -93,8 +93,51 @@ def stream_for(lines):
     return _WorldStream if any(ln.startswith('class') and 'kind=' in ln for ln in lines) else None
 
 
+def nonweak_probe():
+    """Handlers that cannot be referenced weakly (`__slots__` without `__weakref__`): a dispatcher / World
+    either refuses them or - if it takes them - still must not keep them alive.  Runner-level probe on the
+    real code (such objects are outside the model: the unchanged library refuses them with TypeError)."""
+    import gc
+    import desper
+    out = []
+    for make in (desper.EventDispatcher, desper.World):
+        finalised = []
+
+        class Slotted:
+            __slots__ = ('hits',)
+            __events__ = {'ping': 'on_ping'}
+
+            def __init__(self):
+                self.hits = 0
+
+            def on_ping(self, *a):
+                self.hits += 1
+
+            def __del__(self):
+                finalised.append(1)
+        d = make()
+        h = Slotted()
+        try:
+            d.add_handler(h)
+        except TypeError:
+            continue            # refused: nothing is held
+        d.dispatch('ping')
+        hits = h.hits
+        del h
+        gc.collect()
+        if not finalised:
+            out.append(f'{make.__name__} accepted a handler that cannot be referenced weakly and keeps it alive '
+                       f'after the program dropped it (it was called {hits} time(s) before)')
+        d.dispatch('ping')
+    return out
+
+
 def extra_checks(ctx):
     import random
+    for what in nonweak_probe():
+        ctx.violations.append({'sig': 'C10:kept-alive', 'what': what, 'shrink': False,
+                               'replay_cmd': 'python -c "from harness.props import C10; print(C10.nonweak_probe())"'})
+    ctx.cov['nonweak_handler_probe'] = 'slotted handler: refused (TypeError) or held weakly - probed on EventDispatcher and World'
     from harness import core
     from harness.models import world as impl_world
     rng = random.Random(ctx.seed * 7907 + 10)
